@@ -86,7 +86,10 @@ class Conc:
         else:
             k = rng.randrange(1000)
             s_in = rng.choice(["n%d", "  n%d  ", "n%d a:b #c", "\tn%d"]) % k
-            m_in = rng.choice(["m%d\n second\n\tthird", " m%d \n x", "m%d\n .\n y é", "\n only-cont-%d"]) % k
+            m_in = rng.choice(["m%d\n second\n\tthird", " m%d \n x", "m%d\n .\n y é", "\n only-cont-%d",
+                               "usage %d\n   $ run --all\n   $ run --none", "m%d\n  two\n    four\n      six",
+                               "m%d\n\ttab1\n\ttab2", "m%d\n \tmixed\n  x  y  ", "\n   deep-%d\n   deep2",
+                               "m%d\n " + "c" * 300 + "\n  d"]) % k
             first, rest = m_in.split("\n", 1)
             self.new = {NEWS: (s_in, " " + s_in.strip() + "\n", s_in.strip()),
                         NEWM: (m_in, " " + first.strip() + "\n" + rest + "\n", first.strip() + "\n" + rest)}
